@@ -150,4 +150,154 @@ theorem mkCell_ok (r : Region) (cell : List Rat) (m' : Mesh) (h : Mesh.mkCell? r
           · injection h with h
             rw [← h, toLower_empty]
 
+theorem div_div_self_nat (e : Rat) (n : Nat) (he : e ≠ 0) (hn : 0 < n) : e / (e / (n : Rat)) = (n : Rat) := by
+  have : (n : Rat) ≠ 0 := by exact_mod_cast (Nat.pos_iff_ne_zero.mp hn)
+  field_simp
+
+/-- what a successful `Mesh.sel(d)` returns on a well-formed mesh: the mesh with the axis
+of `d` removed -/
+theorem sel_spec (m : Mesh) (hm : m.Inv) (d : String) (m' : Mesh) (h : sel m d = .ok m') :
+    ∃ ax, m.region.dim2index d = .ok ax ∧ ax < m.ndim ∧ 2 ≤ m.ndim ∧
+      m'.region.pmin = removeAt m.region.pmin ax ∧ m'.region.pmax = removeAt m.region.pmax ax ∧
+      m'.region.dims = removeAt m.region.dims ax ∧ m'.region.units = removeAt m.region.units ax ∧
+      m'.region.tol = m.region.tol ∧ m'.n = removeAt m.n ax ∧ m'.bc = "" ∧
+      hasDup m'.region.dims = false := by
+  obtain ⟨⟨hpos, hmax, hdims, hunits, hdup, hlt⟩, hnlen, hnpos⟩ := hm
+  unfold sel at h
+  split at h
+  · cases h
+  · rename_i ax hax
+    split at h
+    · cases h
+    · split at h
+      · cases h
+      · split at h
+        · cases h
+        · rename_i r hr
+          split at h
+          · cases h
+          · rename_i mc hmc
+            split at h
+            · cases h
+            · injection h with h
+              obtain ⟨haxlt, _⟩ := dim2index_ok _ _ _ hax
+              have haxn : ax < m.region.pmin.length := by rw [← hdims]; exact haxlt
+              obtain ⟨hl1, hl2, hl3, hl4, hl5, hreq⟩ := region_mk_ok _ _ _ _ _ _ hr
+              have hlen1 : (removeAt m.region.pmin ax).length = m.region.pmin.length - 1 :=
+                removeAt_length _ _ haxn
+              have h2 : 2 ≤ m.region.pmin.length := by
+                rw [hlen1] at hl2; omega
+              have hlohi : ∀ a, a < (removeAt m.region.pmin ax).length →
+                  (removeAt m.region.pmin ax).getD a 0 < (removeAt m.region.pmax ax).getD a 0 := by
+                intro a ha
+                rw [getD_removeAt_skip, getD_removeAt_skip]
+                exact hlt (skip ax a) (skip_lt ax a _ (by omega))
+              have hpmin : r.pmin = removeAt m.region.pmin ax := by
+                rw [hreq]; simp only
+                symm
+                apply eq_tab_of_getD _ _ _ 0 rfl
+                intro a ha
+                exact (min_eq_left (le_of_lt (hlohi a ha))).symm
+              have hpmax : r.pmax = removeAt m.region.pmax ax := by
+                rw [hreq]; simp only
+                symm
+                apply eq_tab_of_getD _ _ _ 0 hl1.symm
+                intro a ha
+                exact (max_eq_right (le_of_lt (hlohi a ha))).symm
+              have hmc' := mkCell_ok _ _ _ hmc
+              have hndim : m.ndim = m.region.pmin.length := rfl
+              have hrndim : r.ndim = m.region.pmin.length - 1 := by
+                unfold Region.ndim; rw [hpmin, hlen1]
+              have hn : mc.n = removeAt m.n ax := by
+                rw [hmc']; simp only
+                symm
+                apply eq_tab_of_getD _ _ _ 0
+                · rw [removeAt_length _ _ (by rw [hnlen]; exact haxn), hnlen, hrndim]; rfl
+                · intro a ha
+                  rw [hrndim] at ha
+                  have hs : skip ax a < m.region.pmin.length := skip_lt ax a _ ha
+                  rw [getD_removeAt_skip, getD_removeAt_skip]
+                  have he : r.edge a = m.region.edge (skip ax a) := by
+                    unfold Region.edge Region.hi Region.lo
+                    rw [hpmin, hpmax, getD_removeAt_skip, getD_removeAt_skip]
+                  have hc : m.cell.getD (skip ax a) 0 = m.region.edge (skip ax a) / (m.nAt (skip ax a) : Rat) := by
+                    unfold Mesh.cell
+                    rw [getD_tab _ _ _ _ (by rw [hndim]; exact hs)]; rfl
+                  have hne : m.region.edge (skip ax a) ≠ 0 := by
+                    have := hlt _ hs
+                    unfold Region.edge; intro h0; linarith
+                  rw [he, hc, div_div_self_nat _ _ hne (hnpos _ (by rw [hndim]; exact hs)), roundHalfEven_nat]
+                  rfl
+              refine ⟨ax, hax, by rw [hndim]; exact haxn, by rw [hndim]; exact h2, ?_⟩
+              subst h
+              simp only
+              rw [hmc'] at hn ⊢
+              simp only at hn ⊢
+              refine ⟨hpmin, hpmax, ?_, ?_, ?_, hn, trivial, ?_⟩
+              · rw [hreq]
+              · rw [hreq]
+              · rw [hreq]
+              · rw [hreq]; exact hl4
+
+
+/-- the reduced mesh is well formed -/
+theorem sel_inv (m : Mesh) (hm : m.Inv) (d : String) (m' : Mesh) (h : sel m d = .ok m') : m'.Inv := by
+  obtain ⟨ax, hax, haxlt, h2, hpmin, hpmax, hdims, hunits, htol, hn, hbc, hdup⟩ := sel_spec m hm d m' h
+  obtain ⟨⟨hpos, hmax, hdimsl, hunitsl, hdup0, hlt⟩, hnlen, hnpos⟩ := hm
+  have hndim : m.ndim = m.region.pmin.length := rfl
+  rw [hndim] at haxlt h2
+  have hl : m'.region.pmin.length = m.region.pmin.length - 1 := by
+    rw [hpmin, removeAt_length _ _ haxlt]
+  refine ⟨⟨by omega, ?_, ?_, ?_, hdup, ?_⟩, ?_, ?_⟩
+  · rw [hl, hpmax, removeAt_length _ _ (by omega), hmax]
+  · rw [hl, hdims, removeAt_length _ _ (by omega), hdimsl]
+  · rw [hl, hunits, removeAt_length _ _ (by omega), hunitsl]
+  · intro a ha
+    unfold Region.lo Region.hi
+    rw [hpmin, hpmax, getD_removeAt_skip, getD_removeAt_skip]
+    exact hlt _ (skip_lt ax a _ (by omega))
+  · unfold Region.ndim
+    rw [hl, hn, removeAt_length _ _ (by rw [hnlen]; exact haxlt), hnlen]; rfl
+  · intro a ha
+    have ha' : a < m.region.pmin.length - 1 := by
+      have : m'.ndim = m'.region.pmin.length := rfl
+      omega
+    unfold Mesh.nAt
+    rw [hn, getD_removeAt_skip]
+    exact hnpos _ (by rw [hndim]; exact skip_lt ax a _ ha')
+
+/-- cell sizes of the reduced mesh are the cell sizes of the remaining axes -/
+theorem sel_cellAt (m : Mesh) (hm : m.Inv) (d : String) (m' : Mesh) (h : sel m d = .ok m')
+    (ax : Nat) (hax : m.region.dim2index d = .ok ax) (a : Nat) :
+    m'.cellAt a = m.cellAt (skip ax a) := by
+  obtain ⟨ax', hax', _, _, hpmin, hpmax, _, _, _, hn, _, _⟩ := sel_spec m hm d m' h
+  rw [hax] at hax'
+  injection hax' with hax'
+  subst hax'
+  unfold Mesh.cellAt Region.edge Region.hi Region.lo Mesh.nAt
+  rw [hpmin, hpmax, hn, getD_removeAt_skip, getD_removeAt_skip, getD_removeAt_skip]
+
+/-- cell volume = cell length of the removed axis × cell volume of the reduced mesh -/
+theorem sel_dV (m : Mesh) (hm : m.Inv) (d : String) (m' : Mesh) (h : sel m d = .ok m')
+    (ax : Nat) (hax : m.region.dim2index d = .ok ax) :
+    dV m = m.cellAt ax * dV m' := by
+  have hc := sel_cellAt m hm d m' h ax hax
+  obtain ⟨ax', hax', haxlt, h2, hpmin, _, _, _, _, _, _, _⟩ := sel_spec m hm d m' h
+  rw [hax] at hax'
+  injection hax' with hax'
+  subst hax'
+  have hcell : m'.cell = removeAt m.cell ax := by
+    unfold Mesh.cell
+    rw [removeAt_tab _ _ _ haxlt]
+    have : m'.ndim = m.ndim - 1 := by
+      show m'.region.pmin.length = m.region.pmin.length - 1
+      rw [hpmin, removeAt_length _ _ haxlt]
+    rw [this]
+    exact tab_congr _ _ _ (fun a _ => hc a)
+  unfold dV
+  rw [ratProd_removeAt m.cell ax (by simpa [Mesh.cell] using haxlt), hcell]
+  congr 1
+  unfold Mesh.cell
+  exact getD_tab _ _ _ _ haxlt
+
 end DFV.C06
